@@ -5,6 +5,79 @@
 // Every case runs in a child process with a per-case deadline, so that a
 // parse that never returns (or exhausts memory, or panics in another
 // goroutine) is an observation of that case, not a failure of the harness.
+//
+// USAGE-PATTERN AUDIT (round 3) - what a caller can do with the API, and which
+// op / stream does it.  [new] = added by the audit (usage.go).
+//
+// Entry points                          exercised by
+//
+//	jsonx.Unmarshal(bs, v)              op unmarshal into *RawMessage and *interface{} (corpus manyerr docs prefix tokdel
+//	                                    tokins seq1-3 malformed valid cut render plainjson trailing printed words big);
+//	                                    op gort into the Go type the value came from; op targets [new]: nil, not a
+//	                                    pointer, nil pointer, *int *int64 *uint64 *float64 *string *bool *json.Number
+//	                                    *[]interface{} *[]string *map *struct, a map that already holds a key - each
+//	                                    against json.Unmarshal of ToJSON's output; op reuse [new]: the input slice is
+//	                                    not written to, the stored value of call 1 survives call 2, 8 goroutines
+//	jsonx.ReadFile / ReadFileMaybeJSON  op file: C08 files (14 documents and their halves), C07 files (every 8th value),
+//	/ ReadSeriesFile / WriteFile        C09 files + every 8th trailing-content document [new]; missing file [new];
+//	/ Fprint / Sprint / Print           the file name in error positions [new]; MaybeJSON falls back exactly when
+//	                                    encoding/json accepts, with that value [new]; all printers agree with Marshal
+//	jsonx.Marshal                       op print (value, number, string, keys, runes, govalue, smallnum [new]: every
+//	                                    integer -130..130, 10^k and neighbours in every Go number type, bigvalue [new]);
+//	                                    op reuse/reuse7 [new]: bytes of call 1 intact after call 2, same text twice,
+//	                                    8 goroutines, Fprint into a writer failing at Write k (for good / once),
+//	                                    WriteFile into a missing directory
+//	jsonx.ToJSON                        op tojson (all C09 streams; numlex [new]: every string <= 3 over 0179xeE.-+af,
+//	                                    <= 4 over 01x.e-; words [new]: keyword prefixes as value / key / list / dotted /
+//	                                    type name; escapes [new]: digit counts and value bounds of every escape kind;
+//	                                    big [new]); op reuse [new]
+//	NewDecoder / NewFileDecoder +       op stream (for More { Decode }), series, tseries (one call per Decoder);
+//	More / Decode / DecodeSeries        op script [new]: ONE Decoder, any sequence of More / Decode / DecodeSeries -
+//	                                    Decode without More, More repeated, calls after a call that failed, a series
+//	                                    after a header value, a series twice, Decode after a series; intended values
+//	                                    for valid documents, the proved model (Jsonx/Script.v) for everything
+//	strtoken.Parse                      op shell (shell manyerr; escapes, shell-eol, shell-short [new]: every string
+//	                                    <= 4 over a " \ space LF x 4, lines ending inside a quote or an escape); reuse
+//	lexing.NewCommentLexer NewWordLexer op lexfn [new]: exported lexers no entry point above reaches (shared helpers
+//	NewLexer (no LexFunc) NewTokener    lexBlockComment / LexString / LexNumber / LexIdent with other white-space
+//	LexString with quote '              functions and quotes): return, EOF last and for ever, tokens spell the input
+//
+// Values the caller supplies            legal shapes                                    exercised by
+//
+//	io.Reader of a Decoder              (n,nil) (n,EOF) (0,EOF) (0,nil) (n,err) (0,err); op rstream / rseries [new] modes 1 one
+//	                                    any chunking, a rune split across reads         byte, 2 chunks 1-7, 3 data with EOF,
+//	                                                                                    4 empty reads, 5 4096-k, 6/7 fails
+//	                                                                                    after cut bytes; before: bytes.Reader
+//	io.Writer of Fprint                 error at Write k, for good or once              reuse7 [new]; short writes without error
+//	                                                                                    break io.Writer's contract: not done
+//	TypeMaker                           nil; pointer to a fresh value; NOT a pointer;   series tseries; makers [new]: byval
+//	                                    typed nil pointer; nil / non-nil map by value;  nilp nilmap valmap filled chan.  A maker
+//	                                    pointer to a filled value; *chan                that panics or hands out one pointer
+//	                                                                                    twice is the caller's: not done
+//	v of Unmarshal / Decode             see targets                                     targets [new], gort
+//	v of Marshal                        everything json.Marshal takes or refuses        gort, value
+//
+// State                                 lifetime          exercised by
+//
+//	parser token, parser ErrorList      per Decoder;      script [new] (never reset between calls: an error is sticky,
+//	(errs <= 20, inJail), lexer         never reset       except the encoder's own "invalid integer" which is per call),
+//	ErrorList (<= 20), read error x.e,                    manyerr 19/20/21/22/40 errors of every kind, two errors per
+//	semiInserter.save / insertSemi                        entry at 9/10/11 entries for DecodeSeries' own list [new]
+//	bufio.Reader (4096 bytes)           per Decoder       big / reader [new]: every token kind and a 4-byte rune across
+//	                                                      byte 4096; tokens longer than the buffer
+//	Recorder.tokens                     per Decoder       grows with the input, never read
+//	bytes.Buffer of Marshal / ToJSON    per call          hold [new]: EVERY []byte / string / decoded value / file an op gets
+//	                                                      back is kept (the slice itself) and compared again by the next
+//	                                                      "hold" case, 32 cases later; inputs are scribbled over after the
+//	                                                      call, results after the check; reuse [new]: two to five values /
+//	                                                      documents, Decoders alive together with interleaved calls
+//	keywords, tokTypes                  per process, r/o  reuse [new] (concurrent calls)
+//	files                               on disk           op file (a temporary directory per case)
+//
+// Thresholds in the code: 20 (three error lists) manyerr; escape digit counts 3/2/4/8, bounds 0377 / 0x10FFFF /
+// D800-DFFF escapes [new]; '0' 'x' and exponent signs of LexNumber numlex [new]; isIdent (digit not first) keys;
+// float formatting regimes number, smallnum [new]; 4096 big [new].
+// Not exercised: ErrorList.Max changed by a caller, Keyworder without a keyword set (jsonx never does either).
 package main
 
 import (
@@ -47,34 +120,36 @@ type FloatEnt struct {
 }
 
 type Obs struct {
-	Crash   string      `json:"crash,omitempty"`
-	Toks    []Tok       `json:"toks,omitempty"`
-	Errs    []string    `json:"errs,omitempty"`
-	Ok      bool        `json:"ok"`
-	Out     []int       `json:"out,omitempty"`    // output text as runes
-	OutHex  string      `json:"outhex,omitempty"` // output bytes when not valid UTF-8
-	Res     string      `json:"res,omitempty"`    // unmarshal: ok | err | json | more
-	First   string      `json:"first,omitempty"`
-	Items   [][2][]int  `json:"items,omitempty"`   // series: (type name bytes, json runes)
-	Rejects [][2][]int  `json:"rejects,omitempty"` // tseries: entries whose JSON the strict decoding rejects
-	Vals    [][]int     `json:"vals,omitempty"`    // stream: the JSON of the values decoded one after the other
-	Fin     int         `json:"fin,omitempty"`     // stream: 0 More() false, 1 Decode errors, 2 json.Unmarshal error
-	Deep    bool        `json:"deep,omitempty"`    // gort: jsonx round trip DeepEqual encoding/json's round trip
-	Ident   bool        `json:"ident,omitempty"`   // gort: the value came back DeepEqual to the original
-	JsonEq  bool        `json:"jsoneq,omitempty"`  // gort: Got / Want2 are the canonical JSON of the two results
-	Want2   string      `json:"want2,omitempty"`
-	Canon   *bool       `json:"canon,omitempty"` // gort: every float literal json.Marshal wrote is canonical
-	N       int         `json:"n,omitempty"`     // runes: code points checked
-	Pos     [][2]int    `json:"pos,omitempty"`   // rawpos: (line, column) of every token, EOF last
-	EPos    [][2]int    `json:"epos,omitempty"`  // rawpos: positions of the lexer's errors
-	Strs    [][]int     `json:"strs,omitempty"`  // shell tokens (bytes)
-	Floats  []FloatEnt  `json:"floats,omitempty"`
-	Valid   *bool       `json:"valid,omitempty"` // json.Valid(output)
-	Got     string      `json:"got,omitempty"`   // canonical form of the decoded output
-	Tree    interface{} `json:"tree,omitempty"`  // jsonparse: decoded tree
-	NonPr   []int       `json:"nonprint,omitempty"`
-	Text    string      `json:"text,omitempty"` // printable copy of the output for reports
-	Note    string      `json:"note,omitempty"`
+	Crash    string      `json:"crash,omitempty"`
+	Toks     []Tok       `json:"toks,omitempty"`
+	Errs     []string    `json:"errs,omitempty"`
+	Ok       bool        `json:"ok"`
+	Out      []int       `json:"out,omitempty"`    // output text as runes
+	OutHex   string      `json:"outhex,omitempty"` // output bytes when not valid UTF-8
+	Res      string      `json:"res,omitempty"`    // unmarshal: ok | err | json | more
+	First    string      `json:"first,omitempty"`
+	Items    [][2][]int  `json:"items,omitempty"`   // series: (type name bytes, json runes)
+	Rejects  [][2][]int  `json:"rejects,omitempty"` // tseries: entries whose JSON the strict decoding rejects
+	Vals     [][]int     `json:"vals,omitempty"`    // stream: the JSON of the values decoded one after the other
+	Fin      int         `json:"fin,omitempty"`     // stream: 0 More() false, 1 Decode errors, 2 json.Unmarshal error
+	Deep     bool        `json:"deep,omitempty"`    // gort: jsonx round trip DeepEqual encoding/json's round trip
+	Ident    bool        `json:"ident,omitempty"`   // gort: the value came back DeepEqual to the original
+	JsonEq   bool        `json:"jsoneq,omitempty"`  // gort: Got / Want2 are the canonical JSON of the two results
+	Want2    string      `json:"want2,omitempty"`
+	Canon    *bool       `json:"canon,omitempty"` // gort: every float literal json.Marshal wrote is canonical
+	N        int         `json:"n,omitempty"`     // runes: code points checked
+	Pos      [][2]int    `json:"pos,omitempty"`   // rawpos: (line, column) of every token, EOF last
+	EPos     [][2]int    `json:"epos,omitempty"`  // rawpos: positions of the lexer's errors
+	Strs     [][]int     `json:"strs,omitempty"`  // shell tokens (bytes)
+	Floats   []FloatEnt  `json:"floats,omitempty"`
+	Valid    *bool       `json:"valid,omitempty"` // json.Valid(output)
+	Got      string      `json:"got,omitempty"`   // canonical form of the decoded output
+	Tree     interface{} `json:"tree,omitempty"`  // jsonparse: decoded tree
+	NonPr    []int       `json:"nonprint,omitempty"`
+	Text     string      `json:"text,omitempty"` // printable copy of the output for reports
+	Note     string      `json:"note,omitempty"`
+	Steps    []Step      `json:"steps,omitempty"`    // script: what every call on the long-lived Decoder returned
+	Unstable []Unstable  `json:"unstable,omitempty"` // hold: results that changed after they were returned (Fin = how many, N = how many were held)
 }
 
 type Case struct {
@@ -92,6 +167,10 @@ type Case struct {
 	WantItems []WantItem  `json:"wantitems,omitempty"` // tseries: the intended entries
 	Multi     bool        `json:"multi,omitempty"`     // stream: Want lists the intended values
 	Loose     bool        `json:"loose,omitempty"`     // gort: the type keeps JSON text as text; JSON equality expected
+	Script    string      `json:"script,omitempty"`    // script: the calls, M(ore) D(ecode) S(eries)
+	WantSteps []string    `json:"wantsteps,omitempty"` // script: intended result per call ("" none, "!" no value)
+	RMode     int         `json:"rmode,omitempty"`     // rstream / rseries: the shape of the io.Reader
+	Cut       int         `json:"cut,omitempty"`       // rstream / rseries: bytes delivered before the reader fails
 	Obs       *Obs        `json:"obs,omitempty"`
 
 	goVal interface{} // print: the Go value (not serialised)
@@ -134,6 +213,9 @@ func errName(e *lexing.Error) string {
 	}
 	if e.Code != "" {
 		return e.Code
+	}
+	if e.Err == errInjected {
+		return "reader"
 	}
 	m := ""
 	if e.Err != nil {
@@ -442,13 +524,17 @@ func runCase(c *Case) {
 		}
 	}()
 	in := c.input()
+	defer scribbleInput(in) // the input is the caller's again once the call has returned
 	switch c.Op {
+	case "hold":
+		runHold(o)
 	case "utf8":
 		o.Out = runesOf(in)
 		o.Ok = true
 	case "raw":
 		ts, es := jsonx.VerifRawTokens(in)
 		o.Toks, o.Errs, o.Ok = toks(ts), errNames(es), true
+		o.Note = spelled(in, ts, lexing.IsWhite)
 	case "rawpos":
 		runRawPos(o, in)
 	case "filtered":
@@ -467,6 +553,7 @@ func runCase(c *Case) {
 				o.Note = "nil output with nil errors"
 			}
 			setOut(o, out)
+			holdBytes("the bytes ToJSON returned", out)
 		} else if out != nil {
 			o.Note = "output together with errors"
 		}
@@ -478,9 +565,12 @@ func runCase(c *Case) {
 		case nil:
 			o.Ok, o.Res = true, "ok"
 			setOut(o, []byte(raw))
-			var v interface{}
-			if err2 := jsonx.Unmarshal(in, &v); err2 != nil {
+			holdBytes("the RawMessage Unmarshal filled", []byte(raw))
+			v := new(interface{})
+			if err2 := jsonx.Unmarshal(in, v); err2 != nil {
 				o.Note = "into interface{}: " + err2.Error()
+			} else {
+				holdValue("the value Unmarshal stored", v)
 			}
 		case *lexing.Error:
 			o.Res, o.First = "err", errName(e)
@@ -506,6 +596,8 @@ func runCase(c *Case) {
 			for _, t := range typed {
 				raw := t.V.(*json.RawMessage)
 				o.Items = append(o.Items, [2][]int{bytesOf([]byte(t.Type)), runesOf([]byte(*raw))})
+				holdBytes("an entry DecodeSeries returned", []byte(*raw))
+				holdString("a type name DecodeSeries returned", t.Type)
 			}
 		} else if typed != nil {
 			o.Note = "result together with errors"
@@ -518,6 +610,16 @@ func runCase(c *Case) {
 		runTyped(c, o, in)
 	case "stream":
 		runStream(o, in)
+	case "script":
+		runScript(c, o, in)
+	case "rstream", "rseries":
+		runReader(c, o, in)
+	case "reuse":
+		runReuse(c, o)
+	case "targets":
+		runTargets(o, in)
+	case "lexfn":
+		runLexFn(c, o, in)
 	case "shell":
 		ss, es := strtoken.Parse(string(in))
 		o.Errs = errNames(es)
@@ -526,6 +628,7 @@ func runCase(c *Case) {
 			o.Strs = [][]int{}
 			for _, s := range ss {
 				o.Strs = append(o.Strs, bytesOf([]byte(s)))
+				holdString("a token strtoken.Parse returned", s)
 			}
 		} else if ss != nil {
 			o.Note = "result together with errors"
@@ -566,10 +669,10 @@ func runCase(c *Case) {
 			o.Note = "tempdir: " + err.Error()
 			return
 		}
-		defer os.RemoveAll(dir)
 		o.Ok = true
 		var notes []string
 		fn := dir + "/v.jsonx"
+		defer holdFile("the file of this case", fn) // removed by the next hold case
 		if c.goVal != nil || c.PV != nil {
 			want, err1 := jsonx.Marshal(c.goVal)
 			err2 := jsonx.WriteFile(fn, c.goVal)
@@ -581,9 +684,13 @@ func runCase(c *Case) {
 			if err3 := jsonx.Fprint(&sb, c.goVal); (err3 == nil) != (err1 == nil) || (err1 == nil && !bytes.Equal(sb.Bytes(), want)) {
 				notes = append(notes, "Fprint differs from Marshal")
 			}
-			if s, err4 := jsonx.Sprint(c.goVal); (err4 == nil) != (err1 == nil) || (err1 == nil && s != string(want)) {
+			s, err4 := jsonx.Sprint(c.goVal)
+			if (err4 == nil) != (err1 == nil) || (err1 == nil && s != string(want)) {
 				notes = append(notes, "Sprint differs from Marshal")
 			}
+			holdBytes("the bytes Marshal returned", want)
+			holdBytes("the bytes Fprint wrote into the caller's buffer", sb.Bytes())
+			holdString("the string Sprint returned", s)
 			if pb, err5 := capturePrint(c.goVal); (err5 == nil) != (err1 == nil) || (err1 == nil && !bytes.Equal(pb, want)) {
 				notes = append(notes, "Print (standard output) differs from Marshal")
 			}
@@ -594,6 +701,7 @@ func runCase(c *Case) {
 		var r1, r2, r3 json.RawMessage
 		e1 := jsonx.Unmarshal(data, &r1)
 		e2 := jsonx.ReadFile(fn, &r2)
+		holdBytes("the RawMessage ReadFile filled", []byte(r2))
 		if (e1 == nil) != (e2 == nil) || !bytes.Equal(r1, r2) {
 			notes = append(notes, "ReadFile differs from Unmarshal")
 		}
@@ -601,8 +709,37 @@ func runCase(c *Case) {
 		if e1 == nil && (e3 != nil || !bytes.Equal(r1, r3)) {
 			notes = append(notes, "ReadFileMaybeJSON differs from Unmarshal on accepted input")
 		}
+		if e1 != nil {
+			// what JSONx rejects is accepted exactly when it is plain JSON, with that value
+			var rj json.RawMessage
+			ej := json.Unmarshal(data, &rj)
+			if (ej == nil) != (e3 == nil) {
+				notes = append(notes, fmt.Sprintf("ReadFileMaybeJSON: JSONx rejects the file, encoding/json says %v, the call returned %v", ej, e3))
+			} else if ej == nil && !bytes.Equal(rj, r3) {
+				notes = append(notes, "ReadFileMaybeJSON: the value is not the one encoding/json reads")
+			}
+		}
+		// errors of the file-level entry points name the file, those of the in-memory ones no file
+		if le, ok := e2.(*lexing.Error); ok && le.Pos != nil && le.Pos.File != fn {
+			notes = append(notes, "ReadFile: the error position names "+le.Pos.File)
+		}
+		if le, ok := e1.(*lexing.Error); ok && le.Pos != nil && le.Pos.File != "" {
+			notes = append(notes, "Unmarshal: the error position names a file")
+		}
+		if e := jsonx.ReadFile(dir+"/missing.jsonx", &r2); e == nil {
+			notes = append(notes, "ReadFile of a missing file returned nil")
+		}
+		if _, es := jsonx.ReadSeriesFile(dir+"/missing.jsonx", knownMaker(c.Known)); es == nil {
+			notes = append(notes, "ReadSeriesFile of a missing file returned nil errors")
+		}
 		t1, es1 := jsonx.NewDecoder(bytes.NewReader(data)).DecodeSeries(knownMaker(c.Known))
 		t2, es2 := jsonx.ReadSeriesFile(fn, knownMaker(c.Known))
+		for _, e := range es2 {
+			if e.Pos != nil && e.Pos.File != fn {
+				notes = append(notes, "ReadSeriesFile: an error position names "+e.Pos.File)
+				break
+			}
+		}
 		if (es1 == nil) != (es2 == nil) || len(t1) != len(t2) || len(es1) != len(es2) {
 			notes = append(notes, "ReadSeriesFile differs from DecodeSeries")
 		} else {
@@ -624,6 +761,7 @@ func runCase(c *Case) {
 		o.Text = printable(bs)
 		o.Out = runesOf(bs)
 		o.NonPr = nonPrintTree(c.goVal)
+		holdBytes("the bytes Marshal returned", bs)
 		// the round trip, read off the implementation only
 		var raw json.RawMessage
 		if err := jsonx.Unmarshal(bs, &raw); err != nil {
@@ -632,6 +770,7 @@ func runCase(c *Case) {
 			return
 		}
 		o.Res = "ok"
+		holdBytes("the RawMessage Unmarshal filled", []byte(raw))
 		got, err := canonJSON([]byte(raw))
 		if err != nil {
 			o.Got = "E(" + err.Error() + ")"
@@ -733,7 +872,7 @@ func main() {
 	oneStream := flag.String("onestream", "replay", "run a single case: its stream")
 	flag.Parse()
 
-	cs := genCases(*mode, *seed, *n)
+	cs := withHolds(genCases(*mode, *seed, *n))
 	if *oneOp != "" {
 		in, _ := hex.DecodeString(*oneIn)
 		cs = []Case{{I: 0, Stream: *oneStream, Op: *oneOp, In: *oneIn, Src: printable(in), Known: seriesKnown}}
@@ -757,6 +896,7 @@ func main() {
 			}
 			curCase.Store(int64(i))
 			curStart.Store(time.Now().UnixNano())
+			cur = &cs[i]
 			runCase(&cs[i])
 			curStart.Store(0)
 			out.Emit(&cs[i])
